@@ -263,6 +263,54 @@ theorem runAll_inv (ts : List Tok) : ∀ (s : St), PPInv s → PPInv (runAll s t
 theorem parked_only_below_hwm (ts : List Tok) (l : Nat) (h : (runAll {} ts).1.hwm ≤ l) :
     (runAll {} ts).1.bufs l = [] := (runAll_inv ts {} init_inv).above l h
 
+
+/-! ### the repaired dispatch (`recvG`): a token of a new level whose leader look-up fails is failed on the spot -/
+
+theorem recvG_level (s : St) (t : Tok) (a : Bool) (hi : PPInv s) (l : Nat) :
+    dataEmits l (recvG s t a).2 ++ bufIds (recvG s t a).1 l = bufIds s l ++ dataArrivals l [t] ∧ PPInv (recvG s t a).1 := by
+  unfold recvG
+  by_cases h : t.retries > s.hwm ∧ a = false
+  · simp only [h, and_self, ↓reduceIte]
+    refine ⟨?_, hi⟩
+    rw [arrivals_single]
+    simp only [dataEmits, List.filterMap_cons, emitAt, List.filterMap_nil, bufIds]
+    cases hf : t.fin
+    · by_cases hl : t.retries = l
+      · have : s.bufs l = [] := hi.above l (by omega)
+        simp [hl, this]
+      · simp [hl]
+    · simp
+  · simp only [h, ↓reduceIte]
+    exact recv_level s t hi l
+
+/-- **Per-level FIFO, repaired dispatch**: for every arrival sequence and every outcome of the leader look-ups -/
+theorem pp_level_fifo_G (ts : List (Tok × Bool)) (l : Nat) :
+    dataEmits l (runAllG {} ts).2 ++ bufIds (runAllG {} ts).1 l = dataArrivals l (ts.map (·.1)) := by
+  suffices ∀ (s : St), PPInv s →
+      dataEmits l (runAllG s ts).2 ++ bufIds (runAllG s ts).1 l = bufIds s l ++ dataArrivals l (ts.map (·.1)) ∧ PPInv (runAllG s ts).1 by
+    have := (this {} init_inv).1
+    simpa [bufIds] using this
+  induction ts with
+  | nil => intro s hi; simp [runAllG, dataEmits, dataArrivals, hi]
+  | cons ta ts ih =>
+    obtain ⟨t, a⟩ := ta
+    intro s hi
+    obtain ⟨h1, h2⟩ := recvG_level s t a hi l
+    obtain ⟨h3, h4⟩ := ih (recvG s t a).1 h2
+    refine ⟨?_, by simpa [runAllG] using h4⟩
+    simp only [runAllG, dataEmits_append, List.map_cons]
+    have hsplit : dataArrivals l (t :: ts.map (·.1)) = dataArrivals l [t] ++ dataArrivals l (ts.map (·.1)) := by
+      simp [dataArrivals, List.filter_cons]; split <;> simp
+    rw [hsplit, List.append_assoc, h3, ← List.append_assoc, h1, List.append_assoc]
+
+theorem runAllG_inv (ts : List (Tok × Bool)) : ∀ (s : St), PPInv s → PPInv (runAllG s ts).1 := by
+  induction ts with
+  | nil => intro s hi; simpa [runAllG] using hi
+  | cons ta ts ih => obtain ⟨t, a⟩ := ta; intro s hi; simpa [runAllG] using ih _ (recvG_level s t a hi 0).2
+
+theorem parked_only_below_hwm_G (ts : List (Tok × Bool)) (l : Nat) (h : (runAllG {} ts).1.hwm ≤ l) :
+    (runAllG {} ts).1.bufs l = [] := (runAllG_inv ts {} init_inv).above l h
+
 /- The end-to-end statement (not proved; decided per run by the oracle on the simulated partition logs):
      log_order: for two messages a, b of one partition submitted in this order by one goroutine,
        (i)  both successful → offset a < offset b;
